@@ -30,10 +30,10 @@ pub enum Case {
     /// pure quadrature y' = p'(t), degree deg, coefficients in scaled time
     Quad { method: Meth, deg: usize, coef: Vec<f64>, x0: f64, len: f64, back: bool },
     /// accepted steps as a function of the tolerance
-    Scaling { method: Meth, a: f64, b: f64, theta: f64, x0: f64, back: bool },
+    Scaling { method: Meth, a: f64, b: f64, theta: f64, x0: f64, back: bool, #[serde(default)] mag2: i32 },
     /// one Radau step of size h = hr/rate on a nonlinear problem, Newton iterated to 10^-ntol_exp: the new state is the
     /// solution of the three-stage Radau IIA collocation equations (solved independently by the harness)
-    Colloc { prob: ProbSpec, x0: f64, back: bool, hr: f64, analytic_jac: bool, ntol_exp: i32 },
+    Colloc { prob: ProbSpec, x0: f64, back: bool, hr: f64, analytic_jac: bool, ntol_exp: i32, #[serde(default)] maxiter: Option<usize> },
     /// a callback answering XOut (dense output on demand) leaves every accepted step the method's step from (x, y)
     XOut(crate::xoutrel::XCase),
 }
@@ -364,7 +364,7 @@ fn radau_collocation_step(prob: &Prob, x0: f64, y0: &[f64], h: f64) -> Option<Ve
     None
 }
 
-fn check_colloc(spec: &ProbSpec, x0: f64, back: bool, hr: f64, analytic_jac: bool, ntol_exp: i32) -> Outcome {
+fn check_colloc(spec: &ProbSpec, x0: f64, back: bool, hr: f64, analytic_jac: bool, ntol_exp: i32, maxiter: usize) -> Outcome {
     let d = if back { -1.0 } else { 1.0 };
     let prob = Prob::new(spec, x0, x0 + d);
     let rate = prob.rate_t().max(1e-3);
@@ -375,7 +375,7 @@ fn check_colloc(spec: &ProbSpec, x0: f64, back: bool, hr: f64, analytic_jac: boo
     instr.use_jac = analytic_jac;
     instr.dir = d;
     let ntol = 10f64.powi(-ntol_exp);
-    let lo = LowOpts { first_step: Some(h), newton_tol: Some(ntol), newton_maxiter: Some(40), identity_mass: true, ..Default::default() };
+    let lo = LowOpts { first_step: Some(h), newton_tol: Some(ntol), newton_maxiter: Some(maxiter), identity_mass: true, ..Default::default() };
     let mut so = RecSolOut::new(vec![]);
     let big = Tol::S(1e3);
     let r = match guarded(|| solve_low(Meth::RADAU, &instr, x0, x0 + h, &y0, &big, &big, &lo, &mut so)) {
@@ -398,9 +398,9 @@ fn check_colloc(spec: &ProbSpec, x0: f64, back: bool, hr: f64, analytic_jac: boo
     let ex = prob.exact(x0 + h);
     let local = max_abs_diff(&yref, &ex);
     if !(e <= tol) {
-        return Outcome::viol(format!("RADAU: one step h={:e} from x0={} with newton_tol={:e} ends {:e} from the solution of the Radau IIA collocation equations (allowed {:e}; the collocation solution itself is {:e} from the exact solution): the step taken is not the Radau IIA step (jacobian {})", h, x0, ntol, e, tol, local, if analytic_jac { "analytic" } else { "finite differences" }));
+        return Outcome::viol(format!("RADAU: one step h={:e} from x0={} with newton_tol={:e} ends {:e} from the solution of the Radau IIA collocation equations (allowed {:e}; the collocation solution itself is {:e} from the exact solution): the step taken is not the Radau IIA step (jacobian {}, newton_maxiter {})", h, x0, ntol, e, tol, local, if analytic_jac { "analytic" } else { "finite differences" }, maxiter));
     }
-    Outcome::pass("RADAU:collocation", spec.blocks.iter().any(|b| !matches!(b, Block::Real { .. } | Block::Pair { .. } | Block::Const { .. })), json!({"dist_to_collocation": e, "collocation_local_error": local}))
+    Outcome::pass(if maxiter < 10 { "RADAU:collocation:small-newton-budget" } else { "RADAU:collocation" }, spec.blocks.iter().any(|b| !matches!(b, Block::Real { .. } | Block::Pair { .. } | Block::Const { .. })), json!({"dist_to_collocation": e, "collocation_local_error": local}))
 }
 
 fn check_slope(spec: &ProbSpec, x0: f64, back: bool, m: Meth, analytic_jac: bool) -> Outcome {
@@ -673,7 +673,7 @@ fn check_quad(m: Meth, deg: usize, coef: &[f64], x0: f64, len: f64, back: bool) 
     }
 }
 
-fn check_scaling(m: Meth, a: f64, b: f64, theta: f64, x0: f64, back: bool) -> Outcome {
+fn check_scaling(m: Meth, a: f64, b: f64, theta: f64, x0: f64, back: bool, mag2: i32) -> Outcome {
     let d = if back { -1.0 } else { 1.0 };
     let (q, e_lo, e_hi) = match m {
         Meth::RK23 => (3.0, 4.0, 8.0),
@@ -681,7 +681,7 @@ fn check_scaling(m: Meth, a: f64, b: f64, theta: f64, x0: f64, back: bool) -> Ou
         Meth::DOP853 => (8.0, 7.0, 12.5),
         _ => return Outcome::triv("n/a"),
     };
-    let spec = ProbSpec { blocks: vec![Block::Pair { a, b, u0: [1.0, 0.3] }, Block::Real { lam: -0.2, u0: 0.7 }], warp: Warp { theta, k: 0, beta: 0.0 }, mix: None, mag2: 0 };
+    let spec = ProbSpec { blocks: vec![Block::Pair { a, b, u0: [1.0, 0.3] }, Block::Real { lam: -0.2, u0: 0.7 }], warp: Warp { theta, k: 0, beta: 0.0 }, mix: None, mag2 };
     let prob = Prob::new(&spec, x0, x0 + d * theta);
     let none: Vec<EvSpec> = vec![];
     let mut xs = vec![];
@@ -691,7 +691,8 @@ fn check_scaling(m: Meth, a: f64, b: f64, theta: f64, x0: f64, back: bool) -> Ou
     while e <= e_hi + 1e-9 {
         let tol = 10f64.powf(-e);
         let instr = Instr::new(&prob, &none);
-        let o = RunOpts::basic(m, tol, tol);
+        // the state is in units of 2^mag2: the absolute tolerance is in the same units (an exact change of units)
+        let o = RunOpts::basic(m, tol, tol * prob.mag);
         match solve(&instr, prob.x0, prob.xend, &prob.y0(), &o) {
             RunResult::Ok(s) if s.status == Status::Success => {
                 ns.push(s.naccpt);
@@ -709,7 +710,7 @@ fn check_scaling(m: Meth, a: f64, b: f64, theta: f64, x0: f64, back: bool) -> Ou
     }
     let slope = ls_slope(&xs, &ys); // d ln N / d ln(1/tol)
     if slope < 0.8 / q || slope > 1.35 / q {
-        return Outcome::viol(format!("{}: accepted steps grow like tol^(-{:.3}), expected about tol^(-1/{}) = tol^(-{:.3}) (allowed [{:.3},{:.3}]); steps {:?}", m.name(), slope, q, 1.0 / q, 0.8 / q, 1.35 / q, ns));
+        return Outcome::viol(format!("{}: accepted steps grow like tol^(-{:.3}), expected about tol^(-1/{}) = tol^(-{:.3}) (allowed [{:.3},{:.3}]); steps {:?}; state in units of 2^{}", m.name(), slope, q, 1.0 / q, 0.8 / q, 1.35 / q, ns, mag2));
     }
     Outcome::pass(format!("{}:scaling", m.name()), true, json!({"exponent_times_q": slope * q, "points": xs.len()}))
 }
@@ -721,9 +722,9 @@ pub fn check(c: &Case) -> Outcome {
         Case::Pade { re, im, h, x0, back, u0 } => check_pade(*re, *im, *h, *x0, *back, *u0),
         Case::PadeRun { re, im, mult, e, x0, back, u0 } => check_pade_run(*re, *im, *mult, *e, *x0, *back, *u0),
         Case::Quad { method, deg, coef, x0, len, back } => check_quad(*method, *deg, coef, *x0, *len, *back),
-        Case::Scaling { method, a, b, theta, x0, back } => check_scaling(*method, *a, *b, *theta, *x0, *back),
+        Case::Scaling { method, a, b, theta, x0, back, mag2 } => check_scaling(*method, *a, *b, *theta, *x0, *back, *mag2),
         Case::XOut(x) => crate::xoutrel::check(x, crate::xoutrel::Aspect::Steps),
-        Case::Colloc { prob, x0, back, hr, analytic_jac, ntol_exp } => check_colloc(prob, *x0, *back, *hr, *analytic_jac, *ntol_exp),
+        Case::Colloc { prob, x0, back, hr, analytic_jac, ntol_exp, maxiter } => check_colloc(prob, *x0, *back, *hr, *analytic_jac, *ntol_exp, maxiter.unwrap_or(40)),
     }
 }
 
@@ -746,9 +747,11 @@ pub fn strategy() -> BoxedStrategy<Case> {
         // Radau on NONLINEAR problems (logistic, tan, reciprocal, cubic, limit cycle; non-autonomous through the time warp):
         // one step against the harness's own solution of the collocation equations.  This is where the simplified
         // Newton iteration matters (on linear problems one iteration is exact).
-        3 => (prob_spec(3, 0.5, 3.0), fr(-2.0, 2.0), any::<bool>(), fr(0.02, 0.35), any::<bool>(), 17i32..=20).prop_map(|(mut prob, x0, back, hr, analytic_jac, ntol_exp)| {
+        3 => (prob_spec(3, 0.5, 3.0), fr(-2.0, 2.0), any::<bool>(), fr(0.02, 0.35), any::<bool>(), 17i32..=20, prop_oneof![4 => Just(40usize), 1 => Just(1usize), 1 => Just(2usize), 1 => Just(3usize), 1 => Just(7usize)]).prop_map(|(mut prob, x0, back, hr, analytic_jac, ntol_exp, maxiter)| {
             if prob.blocks.len() > 2 { prob.blocks.truncate(2); }
-            Case::Colloc { prob, x0, back, hr, analytic_jac, ntol_exp }
+            // (with a budget of 1..7 iterations the step is accepted only if the iteration really converged within it;
+            // otherwise it is rejected and the case is trivial)
+            Case::Colloc { prob, x0, back, hr, analytic_jac, ntol_exp, maxiter: Some(maxiter) }
         }),
         3 => (fr(-20.0, 1.0), fr(-20.0, 20.0), fr(0.05, 1.0), fr(-5.0, 5.0), any::<bool>(), fr(0.3, 2.0), fr(-2.0, 2.0)).prop_map(|(re, im, h, x0, back, u, v)| {
             // |z| <= 20
@@ -763,7 +766,7 @@ pub fn strategy() -> BoxedStrategy<Case> {
             let deg = deg.min(dhat + 1).max(1);
             Case::Quad { method, deg, coef, x0, len, back }
         }),
-        1 => (emb, fr(-0.15, 0.02), fr(2.0, 5.0), fr(10.0, 25.0), fr(-10.0, 10.0), any::<bool>()).prop_map(|(method, a, b, theta, x0, back)| Case::Scaling { method, a, b, theta, x0, back }),
+        1 => (emb, fr(-0.15, 0.02), fr(2.0, 5.0), fr(10.0, 25.0), fr(-10.0, 10.0), any::<bool>(), prop_oneof![2 => Just(0i32), 1 => -100i32..=100, 1 => Just(-60i32)]).prop_map(|(method, a, b, theta, x0, back, mag2)| Case::Scaling { method, a, b, theta, x0, back, mag2 }),
         2 => crate::xoutrel::strategy().prop_map(Case::XOut),
     ]
     .boxed()
